@@ -19,7 +19,7 @@ import (
 
 // C10 — expressions parse with XPath 1.0 precedence, associativity and token rules.
 
-const ruleC10 = "enum (exhaustive): every unparenthesised chain o0 op1 o1 ... opk ok over the 14 binary operators (or and = != < <= > >= + - * div mod |), k <= 5 (quick) / 6 (thorough), operands distinct names; plus unary-minus placements (none, -, --) on every operand for k <= 3 and path-tier and primary operands (a/b, //a, a[1], (a)[1]/b, (a)//b, (a)[1]//@b, 1.5, 'a', count(a), p:a, @q:a, a/.., following-sibling::p:a, a/text()) for k <= 2, and the bare root '/' in every operand position where the token rules let an operator follow it, k <= 2. A chain that the engine rejects is a failure unless it holds a '|' over a string, a number or a scalar function call (grammatical, but a type error an implementation may report when it compiles). Oracle (round-trip): the engine's parse-tree dump (verif hook) of the text equals the dump of a table-driven precedence-climbing reference parse (all operators left-associative, unary minus between multiplicative and union). rapid: any expression e from the node-set and scalar generators: dump(engine parse of Render(e)) = Dump(e); for whitespace placements w permitted by the longest-match rule, dump(w(e)) = dump(e) and value(w(e)) = value(e); for the abbreviation expansion x(e) (a -> child::a, @a -> attribute::a, . -> self::node(), .. -> parent::node(), // -> /descendant-or-self::node()/), dump(x(e)) = dump(e) and sequence(x(e)) = sequence(e). Non-trivial: a chain with >= 2 operators (two tiers or two of one tier); a whitespace variant with >= 1 separator removed or replaced; distinct by text."
+const ruleC10 = "enum (exhaustive): every unparenthesised chain o0 op1 o1 ... opk ok over the 14 binary operators (or and = != < <= > >= + - * div mod |), k <= 5 (quick) / 6 (thorough), operands distinct names; plus unary-minus placements (none, -, --) on every operand for k <= 3 and path-tier and primary operands (a/b, //a, a[1], (a)[1]/b, (a)//b, (a)[1]//@b, 1.5, 'a', count(a), p:a, @q:a, a/.., following-sibling::p:a, a/text()) for k <= 2, and the bare root '/' in every operand position where the token rules let an operator follow it, k <= 2. A chain that the engine rejects is a failure unless it holds a '|' over a string, a number or a scalar function call (grammatical, but a type error an implementation may report when it compiles). Oracle (round-trip): the engine's parse-tree dump (verif hook) of the text equals the dump of a table-driven precedence-climbing reference parse (all operators left-associative, unary minus between multiplicative and union). rapid: any expression e from the node-set and scalar generators: dump(engine parse of Render(e)) = Dump(e); for whitespace placements w (blank, tab, CR, LF, CRLF) permitted by the longest-match rule, dump(w(e)) = dump(e) and value(w(e)) = value(e); for the abbreviation expansion x(e) (a -> child::a, @a -> attribute::a, . -> self::node(), .. -> parent::node(), // -> /descendant-or-self::node()/), dump(x(e)) = dump(e) and sequence(x(e)) = sequence(e). Non-trivial: a chain with >= 2 operators (two tiers or two of one tier); a whitespace variant with >= 1 separator removed or replaced; distinct by text."
 
 var (
 	uC10Chains = harness.NewUnit("C10", "enum-operator-chains", ruleC10)
@@ -432,7 +432,7 @@ func oracleC10Round(l *harness.Live) (c10Info, *harness.Failure) {
 }
 
 func TestC10RoundTrip(t *testing.T) {
-	wsPool := []string{"", "", " ", "\t", "\n ", "  "}
+	wsPool := []string{"", "", " ", "\t", "\n ", "  ", "\r", "\r\n", "\n"} // the four characters of S: #x20, #x9, #xD, #xA
 	runRapid(t, uC10Round, func(rt *rapid.T) {
 		o := xgen.DefaultDoc()
 		hostile := rapid.IntRange(0, 4).Draw(rt, "hostile-names") == 0
